@@ -269,6 +269,22 @@ static void case_random(vh_rng* r, long index) {
       if (handles_open() != 0) { vh_violation("C20:handle:stream-left-open-after-sclose", "%d handle(s) still open after sclose", handles_open()); }
       closed_file_ops(f, "after sclose");
       vh_count("closes");
+    } else if (roll >= 98) {
+      /* an open that cannot succeed (no such directory) on a File that is open: IOError, the old stream has been
+         closed exactly once, what it had buffered is on disk, and the File is closed -- it keeps no handle at all */
+      int by_construct = vh_chance(r, 30);
+      snprintf(opd, sizeof opd, "%s(\"no-such-directory/x\") while open", by_construct ? "construct" : "sopen");
+      vh_op("%s", opd);
+      if (by_construct) { VH_CATCH(construct(f, $S("no-such-directory-c20/x.bin"), $S("r")), exc); }
+      else { VH_CATCH(sopen(f, $S("no-such-directory-c20/x.bin"), $S("r")), exc); }
+      vh_eval();
+      if (exc != IOError) { vh_violation("C20:open:unopenable-path-did-not-raise-ioerror", "%s gave %s", opd, vh_exc_name(exc)); break; }
+      R.open = 0;
+      check_disk("failed reopen");
+      if (handles_open() != 0) { vh_violation("C20:handle:stream-left-open-after-a-failed-reopen", "%d handle(s) open after %s", handles_open(), opd); }
+      closed_file_ops(f, "after a failed reopen");
+      vh_count("failed_reopens_of_an_open_file");
+      continue;
     } else {
       /* reopen on the same object while it is open: the old stream must be closed exactly once */
       const char* mode = MODES[vh_below(r, 10)];
